@@ -45,6 +45,13 @@ type scope struct {
 	children   map[*scope]struct{}
 	childrenMu sync.Mutex
 
+	// cascade holds the children while Close is closing them (see closeAndWait)
+	cascade []*scope
+
+	// helped holds the disposal errors of what an ancestor's Close disposed on behalf of
+	// this scope's interrupted Close (guarded by disposablesMu)
+	helped []error
+
 	// State
 	disposed int32 // atomic
 
@@ -269,11 +276,37 @@ func (s *scope) closeAndWait() error {
 	}
 
 	if s.closer.Load() == goroutineID() {
-		// The Close in progress is further up this very call stack: a Close method of one
-		// of the scope's instances is closing an ancestor. Waiting for it would wait for
-		// ourselves, so the instances it has not reached yet are disposed here, before
-		// the ancestor goes on to its own; the outer Close finds nothing left to do
-		if errs := s.disposeInstances(); len(errs) > 0 {
+		// The Close in progress is further up this very call stack: a Close method of an
+		// instance of the scope - or of one of its descendants - is closing an ancestor.
+		// Waiting for it would wait for ourselves, so what it has not reached yet is
+		// disposed here, before the ancestor goes on to its own: first the children the
+		// interrupted cascade still holds, then the scope's instances. The outer Close
+		// finds nothing left to do
+		var errs []error
+
+		s.childrenMu.Lock()
+		pending := s.cascade
+		s.childrenMu.Unlock()
+
+		for _, child := range pending {
+			if err := child.closeAndWait(); err != nil {
+				errs = append(errs, fmt.Errorf("failed to close child scope: %w", err))
+			}
+		}
+
+		if s.cancel != nil {
+			s.cancel()
+		}
+
+		errs = append(errs, s.disposeInstances()...)
+
+		if len(errs) > 0 {
+			// The interrupted Close reports them as well when it resumes: they are
+			// failures of its own subtree
+			s.disposablesMu.Lock()
+			s.helped = append(s.helped, errs...)
+			s.disposablesMu.Unlock()
+
 			return &DisposalError{
 				Context: "scope",
 				Errors:  errs,
@@ -354,6 +387,7 @@ func (s *scope) Close() error {
 		children = append(children, child)
 	}
 	s.children = nil
+	s.cascade = children
 	s.childrenMu.Unlock()
 	verifYield("scope.Close:children-detached")
 
@@ -362,6 +396,10 @@ func (s *scope) Close() error {
 			errs = append(errs, fmt.Errorf("failed to close child scope: %w", err))
 		}
 	}
+
+	s.childrenMu.Lock()
+	s.cascade = nil
+	s.childrenMu.Unlock()
 
 	verifYield("scope.Close:children-closed")
 	// Cancel context. This happens after the children are closed: cancelling first would
@@ -375,6 +413,13 @@ func (s *scope) Close() error {
 	// Dispose all disposable scoped instances in reverse order
 	verifYield("scope.Close:drained")
 	errs = append(errs, s.disposeInstances()...)
+
+	// What an ancestor's Close, entered from one of the Close methods above, disposed on
+	// this scope's behalf (see closeAndWait)
+	s.disposablesMu.Lock()
+	errs = append(errs, s.helped...)
+	s.helped = nil
+	s.disposablesMu.Unlock()
 
 	verifYield("scope.Close:disposed-own")
 	// Remove from parent's children
